@@ -78,11 +78,28 @@ pub fn c02(out: &mut Vec<String>, rng: &mut Rng, tier: &str) {
             s += s2;
             format!("{} {} {}", s.population(), s.successes(), enc_cires(&s.ci(conf)))
         });
+        // containers / iterators with an inexact size hint: a series with gaps, a filtered iterator
+        let o5 = guarded(|| enc_cires(&proportion::ci_true(conf, &Sparse::of(&bools, 5))));
+        let o6 = guarded(|| enc_cires(&proportion::ci_if(conf, &Sparse::of(&data, 4), |x| *x <= t)));
+        let o7 = guarded(|| {
+            let sp = Sparse::of(&bools, 7);
+            let st: proportion::Stats = sp.0.iter().filter_map(|x| *x).collect();
+            let st2 = proportion::Stats::from_iter(sp.0.iter().filter(|x| x.is_some()).map(|x| x.unwrap()));
+            let mut st3 = proportion::Stats::default();
+            st3.extend(&sp);
+            let mut st4 = proportion::Stats::default();
+            st4.extend_if(&Sparse::of(&data, 2), |x| *x <= t);
+            format!(
+                "{} {} {} {} {} {} {} {} {}",
+                st.population(), st.successes(), st2.population(), st2.successes(), st3.population(), st3.successes(),
+                st4.population(), st4.successes(), enc_cires(&st.ci(conf))
+            )
+        });
         let mut l = format!("C02 frontends p {} {} {}", enc_conf(&conf), t, n);
         for x in &data {
             l.push_str(&format!(" {}", x));
         }
-        out.push(format!("{} => {} | {} | {} | {}", l, o1, o2, o3, o4));
+        out.push(format!("{} => {} | {} | {} | {} | {} | {} | {}", l, o1, o2, o3, o4, o5, o6, o7));
     }
     // running Stats driven by a sequence of operations (chunks on a state that already holds counts)
     let reps = if tier == "thorough" { 3000 } else { 400 };
@@ -157,6 +174,23 @@ pub fn c02(out: &mut Vec<String>, rng: &mut Rng, tier: &str) {
             k += step;
         }
     }
+    // products beyond 2^52 (where x + 0.5 is no longer exact) and just below a half
+    for (n, r, k) in [
+        ((1usize << 52) + 1, 1.0f64, (1usize << 52) + 1),
+        ((1usize << 52) + 5, ((1u64 << 52) + 3) as f64 / ((1u64 << 52) + 5) as f64, (1usize << 52) + 3),
+        ((1usize << 53) + 2, 0.5, (1usize << 52) + 1),
+        (1, 0.49999999999999994, 0),
+        (3, 0.16666666666666666, 1),
+        (1, 0.5, 1),
+        (5, 0.5, 3),
+        (5, 0.7, 4),
+    ] {
+        for kind in 0..3u64 {
+            let conf = conf_of(kind, 0.9);
+            let o = guarded(|| enc_cires(&proportion::ci_wilson_ratio(conf, n, r)));
+            out.push(format!("C02 ratio p {} {} {} {} => {}", enc_conf(&conf), n, r.enc(), k, o));
+        }
+    }
     for _ in 0..reps {
         let n = rng.range(0, 5000) as usize;
         let r = match rng.below(6) {
@@ -201,6 +235,29 @@ pub fn c17(out: &mut Vec<String>, rng: &mut Rng, tier: &str) {
                 let l2 = l1 + (0.9999 - l1) * (0.02 + 0.9 * rng.unit());
                 let (c1, c2) = (conf_of(kind, l1), conf_of(kind, l2));
                 out.push(format!("C17 rel p wider {} {} {} {} {} {} => {} | {}", enc_conf(&c1), n, k, enc_conf(&c2), n, k, w(c1, n, k), w(c2, n, k)));
+            }
+        }
+    }
+    // the largest level below 1 (infinite critical value: the widest interval) against ordinary high levels
+    for (n, k) in [(30usize, 7usize), (1000, 250)] {
+        let top = f64::from_bits(1.0f64.to_bits() - 1);
+        for l in [0.9f64, 0.999999, f64::from_bits(1.0f64.to_bits() - 2)] {
+            for kind in 0..3u64 {
+                let (c1, c2) = (conf_of(kind, l), conf_of(kind, top));
+                out.push(format!("C17 rel p wider {} {} {} {} {} {} => {} | {}", enc_conf(&c1), n, k, enc_conf(&c2), n, k, w(c1, n, k), w(c2, n, k)));
+            }
+        }
+    }
+    // the usual levels against very close neighbours (a table of rounded critical values would show here)
+    for (n, k) in [(30usize, 7usize), (1000, 250), (100_000, 777)] {
+        for l in [0.5f64, 0.8, 0.9, 0.95, 0.975, 0.98, 0.99, 0.995, 0.999] {
+            for d in [1e-6f64, 3e-5, 1e-9] {
+                for kind in 0..3u64 {
+                    for (l1, l2) in [(l - d, l), (l, l + d)] {
+                        let (c1, c2) = (conf_of(kind, l1), conf_of(kind, l2));
+                        out.push(format!("C17 rel p wider {} {} {} {} {} {} => {} | {}", enc_conf(&c1), n, k, enc_conf(&c2), n, k, w(c1, n, k), w(c2, n, k)));
+                    }
+                }
             }
         }
     }
@@ -294,12 +351,17 @@ fn qci_line<T: QElem>(conf: Confidence, q: f64, data: &[T], perms: &[Vec<T>]) ->
     let o3 = guarded(|| enc_cires(&quantile::ci_max_size::<T, _, 16>(conf, &v, q)));
     let o4 = guarded(|| enc_cires(&quantile::ci_max_size::<T, _, 1024>(conf, &v, q)));
     let idx = guarded(|| enc_cires(&quantile::ci_indices(conf, v.len(), q)));
+    // the pre-sorted entry point on the data AS GIVEN (order of arrival): the elements at the two ranks, or
+    // InvalidBounds if they are inverted
+    let raw = guarded(|| enc_cires(&quantile::ci_sorted_unchecked(conf, &v, q)));
+    // a container with gaps (inexact size hint)
+    let sp = guarded(|| enc_cires(&quantile::ci(conf, &Sparse::of(&v, 3), q)));
     let mut l = format!("C03 qci {} {} {} {}", T::TAG, enc_conf(&conf), q.enc(), v.len());
     for x in &v {
         l.push(' ');
         l.push_str(&x.enc());
     }
-    let mut o = format!("{} | {} | {} | {} | {}", o1, o2, o3, o4, idx);
+    let mut o = format!("{} | {} | {} | {} | {} | {} | {}", o1, o2, o3, o4, idx, raw, sp);
     for p in perms {
         let r = guarded(|| enc_cires(&quantile::ci(conf, p, q)));
         o.push_str(&format!(" | {}", r));
@@ -500,6 +562,44 @@ pub fn c12(out: &mut Vec<String>, _rng: &mut Rng, tier: &str) {
             }
         }
     }
+    // the same ranks through the data-taking entry point: unsorted samples whose values are their own ranks
+    let nq2: Vec<usize> = if tier == "thorough" { vec![20, 40, 100, 300] } else { vec![20, 60, 150] };
+    for n in &nq2 {
+        let perm: Vec<usize> = shuffle(_rng, &(0..*n).collect::<Vec<usize>>());
+        for l in levels {
+            for kind in 0..3 {
+                let conf = conf_of(kind, l);
+                let g = 100;
+                let mut line = format!("C12 qcover2 n {} {} {} =>", enc_conf(&conf), n, g);
+                for j in 1..g {
+                    let q = j as f64 / g as f64;
+                    match quantile::ci(conf, &perm, q) {
+                        Ok(Interval::TwoSided(a, bb)) => line.push_str(&format!(" {} {}", a, bb)),
+                        Ok(Interval::UpperOneSided(a)) => line.push_str(&format!(" {} -", a)),
+                        Ok(Interval::LowerOneSided(bb)) => line.push_str(&format!(" - {}", bb)),
+                        Err(_) => line.push_str(" x x"),
+                    }
+                }
+                out.push(line);
+            }
+        }
+    }
+    // proportion intervals through the success-ratio front-end
+    for n in [25usize, 47, 100, 333] {
+        for l in levels {
+            for kind in 0..3 {
+                let conf = conf_of(kind, l);
+                let mut line = format!("C12 cover r {} {} =>", enc_conf(&conf), n);
+                for k in 0..=n {
+                    match proportion::ci_wilson_ratio(conf, n, k as f64 / n as f64) {
+                        Ok(Interval::TwoSided(a, bb)) => line.push_str(&format!(" {} {}", a.enc(), bb.enc())),
+                        _ => line.push_str(" - -"),
+                    }
+                }
+                out.push(line);
+            }
+        }
+    }
 }
 
 pub fn nk_line_pub(conf: Confidence, n: usize, k: usize) -> String {
@@ -507,6 +607,16 @@ pub fn nk_line_pub(conf: Confidence, n: usize, k: usize) -> String {
 }
 pub fn qidx_line_pub(prop: &str, conf: Confidence, n: usize, q: f64) -> String {
     qidx_line(conf, n, q).replacen("C03", prop, 1)
+}
+/// descending / shuffled finite data: every entry point, including the pre-sorted one applied to the data as given
+pub fn qci_unsorted_pub(prop: &str, conf: Confidence, q: f64, n: usize, mode: usize) -> String {
+    let d: Vec<f64> = (0..n).map(|i| match mode % 3 {
+        0 => (n - i) as f64 * 1.25,
+        1 => ((i * 7919) % n) as f64 - 3.5,
+        _ => if i == n / 3 { f64::INFINITY } else if i == 2 * n / 3 { f64::NEG_INFINITY } else { i as f64 },
+    }).collect();
+    let p: Vec<Vec<f64>> = vec![];
+    qci_line::<f64>(conf, q, &d, &p).replacen("C03", prop, 1)
 }
 pub fn qci_nan_sorted_pub(prop: &str, conf: Confidence, n: usize, pos: usize) -> String {
     let mut d: Vec<f64> = (0..n).map(|i| i as f64 * 1.5).collect();
